@@ -13,6 +13,40 @@ NOTE = ("Trusted base: Lean 4.33.0 kernel with axioms propext/Classical.choice/Q
 
 # id -> (category, technique, text, design_ref, extra note)
 CLAIMS = {
+    'C03': ('proof', 'Lean 4 theorem (case analysis over the four dispatch paths, buffer invariant for the preflight pipeline) + differential tie',
+            "Theorems C03 / C03_model / C03_accepted (Props/C03.lean): for every decision oracle, every accepted (well-formed) configuration, "
+            "both debug modes, every request and pre-set headers, the model's response satisfies every clause of C03Spec (ACAO is `*` only for "
+            "non-credentialed allow-all or the byte-exact first Origin of an allowed origin; ACAC only `true` next to such an echo when credentialed; "
+            "nothing without an allowed origin; preflight-only and actual-only headers with exactly the configured values). "
+            "Tie: strict comparison of whole responses on the serve suite incl. the malformed-request stream.",
+            '6/C03', "'allowed origin' is read through the decision oracle (DESIGN 3d/8.1); its identification with pattern denotations is C01."),
+    'C08': ('proof', 'Lean 4 theorem on the sequential state machine + history correspondence',
+            "Theorems C08 / C08_error_iff / C08_obs (Props/C08.lean): for every state and every Config that validation rejects, Reconfigure returns the "
+            "error and the model state (configuration, debug) is literally unchanged, hence all responses and Config() too. Tie: random histories "
+            "with invalid reconfigurations, probes after every step.",
+            '6/C08', 'Trivial in the model because validation builds a fresh value before the critical section; that shape of the Go code is what the history suite checks.'),
+    'C09': ('proof', 'Lean 4 simulation proof by induction over operation lists + history correspondence',
+            "Theorems C09_sim_zero / C09_sim_new / C09_ctor (Props/C09.lean): over operation sequences of any length the model of "
+            "Middleware follows the documented debug state machine (off after creation, SetDebug no-op on passthrough, kept by successful Reconfigure, "
+            "cleared by Reconfigure(nil), untouched by a failed one); C09_nonpreflight / C09_preflight_next: debug has no influence on non-preflight "
+            "requests and never lets a preflight reach the handler. Tie: history suite observing the state after every step.",
+            '6/C09', "The clause 'debug changes only the diagnostics of failing preflights' is proved for non-preflights; the precise delta on preflights (Spec.debugDelta) is covered by the tie only so far."),
+    'C10': ('proof', 'Lean 4 2-safety theorem (reads-only lemmas per dispatch path) + differential tie',
+            "Theorems C10 / C10_accepted / C10_preserve (Props/C10.lean): for every decision oracle, accepted configuration, debug mode, pre-set headers "
+            "and every ordered pair of requests with the same method agreeing (as header lookups) on the names listed in the Vary values the middleware "
+            "added to the first response, the two responses are equal; earlier Vary values are kept as a prefix. Tie: serve suite (Vary compared like any header).",
+            '6/C10', 'Agreement on a header is equality of lookups (absent differs from present-with-zero-values), DESIGN 8.2.'),
+    'C11': ('proof', 'Lean 4 theorem (dispatch + frame) + differential tie with identity/exactly-once instrumentation',
+            "Theorems C11_dispatch / C11_preflight / C11_frame / C11_passthrough / C11 (Props/C11.lean): the handler is invoked iff the request is not a preflight "
+            "(OPTIONS with at least one Origin and one ACRM value); preflights get a status from the middleware; on other requests no status is written, every header other than "
+            "Vary/ACAO/ACAC/ACEH is untouched and Vary is only appended to; a passthrough middleware is the identity. Tie: serve suite with an inner handler recording "
+            "call count, pointer identity of writer and request, and that its own output reaches the recorder unchanged.",
+            '6/C11', 'Pointer identity, exactly-once and empty body are runtime facts observed by the harness, not theorems.'),
+    'C16': ('proof', 'Lean 4 theorem (value-provenance invariant of the preflight buffer) + differential tie',
+            "Theorems C16 / C16_fail / C16_distinct / C16_accepted (Props/C16.lean): debug off, any preflight: status is the single regenerated failure status or the configured "
+            "success status (distinct for accepted configurations); with the failure status nothing but Vary changes; every header value the middleware sets is `*`, `true`, "
+            "`*,authorization`, the configured max-age or a slice of the request (first Origin, first ACRM, the ACRH lines) - never the configured allow-lists. Tie: serve suite.",
+            '6/C16', 'The failure status is a regenerated fact (403 today); a per-reason status breaks the fact-dependent model and the tie.'),
     'C19': ('proof', 'Lean 4 theorem by mutual structural induction over join trees + differential tie',
             "Theorems C19 / C19_full / C19_break (Props/C19.lean): for every join tree and every consumer (hence every break position) "
             "the model of cfgerrors.All never yields after stop and yields exactly the accepted prefix of the leaves. The model is tied to "
